@@ -18,7 +18,8 @@ RULE = (
     "Histories (model-based, <= 14 steps, one shrinkable value) of process-wide activity - parsing unrelated descriptions, "
     "creating objects under other MasterConfig defaults, setting and restoring MasterConfig, clearing / disabling / "
     "re-enabling / pre-warming the TRS cache (with near-miss and probe strings), mutating dicts and lists returned by "
-    "trs_to_dict / to_dict / to_list / tracts_to_dict / list_trs / group_by / Config, creating objects whose parse is deferred to a later step - interleaved with probe evaluations "
+    "trs_to_dict / to_dict / to_list / tracts_to_dict / list_trs / group_by / Config, creating objects whose parse is deferred to a later step, building several objects from one "
+    "shared Config object and parsing them with keyword overrides, parsing a Tract as a dry run before parsing it for good - interleaved with probe evaluations "
     "from a pool of 100+ probe calls (descriptions, tracts, TRS constructions and decompositions, find_twprge, with settings). "
     "Every probe result is compared with the result of the same probe in a fresh interpreter (subprocesses, 6 probes each) "
     "started under the MasterConfig defaults in force at that moment. Non-trivial: a probe evaluated after at least one "
@@ -68,10 +69,10 @@ def trs_attrs(t):
                                        "twp_undef", "rge_undef", "sec_undef")} | {"err": bool(t.is_error()), "undef": bool(t.is_undef()), "pretty": t.pretty_twprge()}
 
 
-def evaluate(p):
+def evaluate(p, cfg=None):
     kind = p[0]
     if kind == "plss":
-        d = PLSSDesc(p[1], config=p[2])
+        d = PLSSDesc(p[1], config=p[2] if cfg is None else cfg)
         return {"pp": d.pp_desc, "layout": d.current_layout, "flags": sorted(map(str, d.flags)),
                 "tracts": [[t.trs, t.desc, list(t.lots), list(t.qqs), sorted(map(str, t.flags)), t.twp_num, t.rge_ew] for t in d.tracts]}
     if kind == "tract":
@@ -166,6 +167,11 @@ OP = st.one_of(
     st.tuples(st.just("create_deferred"), st.integers(0, len(DESCS) - 1)),
     st.tuples(st.just("parse_deferred")),
     st.tuples(st.just("side_tract"), st.integers(0, len(TRACTS) - 1), st.sampled_from(["", "clean_qq", "parse_qq,clean_qq"])),
+    # one Config object per description, shared by every object built for it in this history
+    st.tuples(st.just("use_shared_config"), st.integers(0, len(DESCS) - 1), st.booleans(), st.sampled_from(["plss", "tract"])),
+    st.tuples(st.just("probe_shared_config"), st.integers(0, len(DESCS) - 1)),
+    # a Tract that is first parsed as a dry run and then for good
+    st.tuples(st.just("tract_dry_run_first"), st.integers(0, len(TRACTS) - 1), st.integers(1, 2)),
 ).map(list)
 CASE = st.fixed_dictionaries({"ops": st.lists(OP, min_size=2, max_size=14), "final": st.lists(st.integers(0, len(PROBES) - 1), min_size=1, max_size=3)})
 
@@ -226,6 +232,7 @@ def oracle(c):
         return True
 
     deferred = []       # objects created earlier in the history and only parsed later
+    shared = {}         # description index -> the one Config object used for it throughout this history
 
     def check_deferred(step):
         nonlocal nontrivial
@@ -268,6 +275,49 @@ def oracle(c):
             elif name == "side_tract":
                 desc, _ = TRACTS[op[1]]
                 Tract(desc, config=op[2]).parse()
+            elif name == "use_shared_config":
+                j = op[1]
+                text, cfg = DESCS[j]
+                cobj = shared.setdefault(j, Config(cfg))
+                if op[3] == "plss":
+                    u = PLSSDesc(text, config=cobj, wait_to_parse=True)
+                    u.parse(parse_qq=True, clean_qq=True, qq_depth=1, break_halves=True, commit=op[2])
+                    u.parse_tracts(qq_depth_min=1, suppress_lot_divs=True)
+                else:
+                    u = Tract("N/2NE/4, NE, Lots 1 - 3", config=cobj)
+                    u.parse(clean_qq=True, qq_depth=1, break_halves=True, commit=op[2])
+            elif name == "probe_shared_config":
+                j = op[1]
+                text, cfg = DESCS[j]
+                cobj = shared.setdefault(j, Config(cfg))
+                ns, ew = MasterConfig.default_ns, MasterConfig.default_ew
+                want = REFERENCE[(ns, ew, j)]
+                got = _norm(evaluate(PROBES[j], cfg=cobj))
+                if got != want:
+                    field = next((k for k in want if got.get(k) != want[k]), "?")
+                    fails.append(Failure(f"history_dependence:shared_config:{field}",
+                                         f"step {i}: {PROBES[j]} built from the Config object other objects of this history were built from gives {json.dumps(got)[:300]}, a fresh interpreter (config text) gives {json.dumps(want)[:300]}",
+                                         probe=PROBES[j], ops=c["ops"][:i + 1]))
+                    break
+            elif name == "tract_dry_run_first":
+                k = op[1]
+                desc, cfg = TRACTS[k]
+                jt = len(DESCS) + k          # index of the corresponding tract probe
+                rest = ",".join(x for x in cfg.split(",") if x and x != "parse_qq")
+                t = Tract(desc, trs="154n97w14", config=rest)
+                for _ in range(op[2]):
+                    t.parse(commit=False)
+                t.parse()
+                if "parse_qq" in cfg.split(","):
+                    ns, ew = MasterConfig.default_ns, MasterConfig.default_ew
+                    want = REFERENCE[(ns, ew, jt)]
+                    got = _norm({"pp": t.pp_desc, "lots": list(t.lots), "qqs": list(t.qqs), "acres": dict(t.lot_acres), "flags": sorted(map(str, t.flags)), "trs": t.trs})
+                    if got != want:
+                        field = next((kk for kk in want if got.get(kk) != want[kk]), "?")
+                        fails.append(Failure(f"history_dependence:tract_after_dry_run:{field}",
+                                             f"step {i}: Tract({desc!r}, config={rest!r}) parsed as a dry run and then for good gives {json.dumps(got)[:300]}, parsed once in a fresh interpreter {json.dumps(want)[:300]}",
+                                             probe=PROBES[jt], ops=c["ops"][:i + 1]))
+                        break
             elif name == "side_parse":
                 d = PLSSDesc(SIDE[op[1]], config=op[2])
                 d.parse_tracts()
@@ -352,7 +402,7 @@ SUBS = [
     Sub("histories", oracle, strategy=lambda tier: CASE, nontrivial=lambda c: bool(_last.get("nt")), classes=classes, render=lambda c: c,
         n={"quick": 1500, "thorough": 12000}, shards={"quick": 8, "thorough": 16},
         essential=("op=probe", "op=set_master", "op=clear_cache", "op=cache_off", "op=prewarm", "op=mutate_trs_dict", "op=mutate_outputs",
-                   "op=under_defaults", "op=create_deferred", "op=parse_deferred", "nontrivial")),
+                   "op=under_defaults", "op=create_deferred", "op=parse_deferred", "op=use_shared_config", "op=probe_shared_config", "op=tract_dry_run_first", "nontrivial")),
 ]
 
 if __name__ == "__main__" and len(sys.argv) > 1 and sys.argv[1] == "--reference":
